@@ -23,7 +23,7 @@ ROOT = runner.ROOT
 MM = os.path.join(runner.WORK, "mm")
 REC = os.path.join(MM, "rec")
 SCRATCH = "/var/tmp/cached_mm"
-FILES = ["Basic.lean", "Sketch.lean", "Admission.lean", "State.lean", "LayerB.lean", "Ack.lean", "Glue.lean", "Locks.lean"]
+FILES = ["Basic.lean", "Sketch.lean", "Admission.lean", "State.lean", "Iter.lean", "LayerB.lean", "Ack.lean", "Glue.lean", "Locks.lean"]
 OPS = [(" < ", " ≤ "), (" ≤ ", " < "), (" > ", " ≥ "), (" ≥ ", " > "), (" == ", " != "), (" != ", " == "), (" && ", " || "), (" || ", " && "),
        (" + 1", " + 0"), (" + 1", " + 2"), (" - 1", " - 0"), ("true", "false"), ("false", "true")]
 
